@@ -211,6 +211,16 @@ impl Obj {
             Obj::Buf(b) => Some(Obj::Buf(b.dup())),
         }
     }
+    /// `Clone::clone_from(self, src)`; false when the type is not `Clone`
+    pub fn clone_from(&mut self, src: &Obj) -> bool {
+        match (self, src) {
+            (Obj::Bm(a, _), Obj::Bm(b, _)) => a.clone_from_obj(b.as_ref()),
+            (Obj::Core(a), Obj::Core(b)) => a.clone_from_obj(b.as_ref()),
+            (Obj::Stream(a), Obj::Stream(b)) => a.clone_from_obj(b.as_ref()),
+            (Obj::Buf(a), Obj::Buf(b)) => a.clone_from_obj(b.as_ref()),
+            _ => false,
+        }
+    }
     pub fn debug(&self) -> String {
         match self {
             Obj::Bm(b, _) => b.debug(),
